@@ -246,12 +246,17 @@ func (m Mapper) NewMutation(data *Info, column string, mutator ovsdb.Mutator, va
 	// except for delete mutation of maps where it can also be a list of same type of
 	// keys (rfc7047 5.1). Handle this special case here.
 	if mutator == "delete" && columnSchema.Type == ovsdb.TypeMap && reflect.TypeOf(value).Kind() != reflect.Map {
-		// It's OK to cast the value to a list of elements because validation has passed
-		ovsSet, err := ovsdb.NewOvsSet(value)
-		if err != nil {
-			return nil, err
+		// It's OK to treat the value as a list of keys because validation has passed
+		keys := reflect.ValueOf(value)
+		ovsSet := make([]interface{}, 0, keys.Len())
+		for i := 0; i < keys.Len(); i++ {
+			ovsKey, err := ovsdb.NativeToOvsAtomic(columnSchema.TypeObj.Key.Type, keys.Index(i).Interface())
+			if err != nil {
+				return nil, err
+			}
+			ovsSet = append(ovsSet, ovsKey)
 		}
-		ovsValue = ovsSet
+		ovsValue = ovsdb.OvsSet{GoSet: ovsSet}
 	} else {
 		ovsValue, err = ovsdb.NativeToOvs(columnSchema, value)
 		if err != nil {
